@@ -93,6 +93,26 @@ def verifyEntry (C : CryptoFns) (gpg : Bool) (auth : List PStr) (data : Bytes)
     | .error .invalidSignature => pure good                           -- 441-443
     | .error e => .error e
 
+/-- which branch of the loop body an entry takes (for the correspondence: the model's own case split, reported entry by entry) -/
+inductive EntryClass where
+  | notKey | unauthorized | wrongShape | invalid | counts | error
+  deriving DecidableEq, Repr
+
+def EntryClass.name : EntryClass → String
+  | .notKey => "not-a-key" | .unauthorized => "unauthorized" | .wrongShape => "wrong-shape" | .invalid => "invalid" | .counts => "counts" | .error => "error"
+
+/-- the entry is run through one iteration of the loop with an empty accumulator: it counts iff it was added; otherwise the first test it fails names the class -/
+def entryClass (C : CryptoFns) (gpg : Bool) (auth : List PStr) (data : Bytes) (k : PStr) (sig : J) : EntryClass :=
+  match verifyEntry C gpg auth data [] k sig with
+  | .ok (_ :: _) => .counts
+  | .error _ => .error
+  | .ok [] =>
+    if isHexKeyJ (.str k) != .ok true then .notKey
+    else if gpg && isGpgSignatureJ sig != .ok true then .wrongShape
+    else if !auth.contains k then .unauthorized
+    else if !gpg && isSignatureJ sig != .ok true then .wrongShape
+    else .invalid
+
 def verifyLoop (C : CryptoFns) (gpg : Bool) (auth : List PStr) (data : Bytes) :
     List (PStr × J) → List (PStr × J) → Res (List (PStr × J))
   | good, [] => pure good
